@@ -432,7 +432,8 @@ def execute(plan):
                     for _ in g_:
                         outcome_ = 'answer'
                         break
-                    g_.close()
+                    if hasattr(g_, 'close'):
+                        g_.close()
                 except Exception as e:
                     outcome_ = type(e).__name__
                 g_ = None
